@@ -54,7 +54,7 @@ def plan(tier, seed):
                     shards.append((kind, n, mt, a, b))
     # two-dimensional samples, batches handed over in Fortran order / as a transposed view
     for kind in KINDS:
-        for lay in ("F", "T"):
+        for lay in ("F", "T", "R", "N"):
             for a, b in E.chunks(81, 27):
                 shards.append(("2d", kind, lay, a, b))
     return shards
